@@ -28,6 +28,23 @@ def const_of(e):
     return None
 
 
+def add_terms(e):
+    """additive terms of an unsigned sum: a + b, checked_add(a, b).unwrap()/expect(..)/Some-payload, (a + b).0 of an
+    overflow-checked add"""
+    e = uncast(e)
+    if isinstance(e, tuple) and e:
+        if e[0] == "bin" and e[1] in ("Add", "AddWithOverflow", "AddUnchecked"):
+            return add_terms(e[2]) + add_terms(e[3])
+        if e[0] == "field" and isinstance(e[1], tuple) and e[1]:
+            if e[1][0] == "bin" and e[1][1] == "AddWithOverflow" and e[2] in (0, "0"):
+                return add_terms(e[1][2]) + add_terms(e[1][3])
+            if e[1][0] == "variant" and is_call(e[1][1], "checked_add"):
+                return add_terms(e[1][1][2][0]) + add_terms(e[1][1][2][1])
+        if (is_call(e, "expect") or is_call(e, "unwrap")) and is_call(e[2][0], "checked_add"):
+            return add_terms(e[2][0][2][0]) + add_terms(e[2][0][2][1])
+    return [e]
+
+
 class Ctx:
     def __init__(self, body, bb, facts, extra=(), norm=None):
         self.body = body
@@ -61,6 +78,11 @@ class Ctx:
                         out.append(("lt", ("call", "core::slice::<impl [T]>::len", (a[0],)), a[1][2][0]))
                     if nm in ("get", "get_mut") and v == 1 and len(a) == 2 and isinstance(a[1], tuple) and a[1][0] == "agg" and "RangeTo" in str(a[1][1]):
                         out.append(("le", a[1][2][0], ("call", "core::slice::<impl [T]>::len", (a[0],))))
+                    if nm in ("first", "first_mut", "last", "last_mut", "split_first", "split_last", "split_first_mut", "split_last_mut") and len(a) == 1 and v in (0, 1):
+                        # Some(..) exactly when the slice is non-empty
+                        out.append(("truth", ("call", "core::slice::<impl [T]>::is_empty", (canon(a[0]),)), 1 - v))
+                        if v == 1:
+                            out.append(("lt", ("const", 0), ("call", "core::slice::<impl [T]>::len", (canon(a[0]),))))
                     if nm == "checked_sub" and v == 1:
                         out.append(("le", a[1], a[0]))
                     if nm == "checked_sub" and v == 0:
@@ -104,6 +126,20 @@ class Ctx:
             inner = bb_[2][0]
             if is_call(inner, "checked_add") and (a in inner[2] or (depth < 3 and any(self.le(a, x, depth + 1) for x in inner[2]))):
                 return True
+        # sums of unsigned terms: every term of a also occurs in b (sums are checked, or decided by E1 where they are not)
+        if depth <= 2:
+            ta, tb = add_terms(a), add_terms(b)
+            if (len(ta) > 1 or len(tb) > 1) and ta:
+                rest = list(tb)
+                ok = True
+                for x in ta:
+                    if x in rest:
+                        rest.remove(x)
+                    else:
+                        ok = False
+                        break
+                if ok:
+                    return True
         # min(.., b, ..) <= b ;   a <= max(.., a, ..)
         if is_call(a, "min") and any(self.le(x, b, depth + 1) for x in a[2]) and depth < 3:
             return True
